@@ -86,10 +86,16 @@ func (s *Stats) Label(l string) {
 }
 
 // ForeignAnomaly counts a discarded case.
-func (s *Stats) ForeignAnomaly(owner string) {
+func (s *Stats) ForeignAnomaly(owner string, c ...any) {
 	s.mu.Lock()
 	s.Foreign[owner]++
+	n := s.Foreign[owner]
 	s.mu.Unlock()
+	if dir := os.Getenv("VERIF_FOREIGN_DIR"); dir != "" && len(c) > 0 && n <= 3 {
+		b, _ := json.MarshalIndent(map[string]any{"property": owner, "message": "foreign anomaly met by " + s.Property, "case": c[0]}, "", " ")
+		_ = os.MkdirAll(dir, 0o755)
+		_ = os.WriteFile(fmt.Sprintf("%s/%s-from-%s-%d-%d.json", dir, owner, s.Property, os.Getpid(), n), b, 0o644)
+	}
 }
 
 // Fail remembers the smallest failing case; the caller then fails the rapid test.
